@@ -910,6 +910,13 @@ def case_render(r, plan):
     for fl in flags:
         parts.append('[F"{a %s}", F"{b %s}"]' % (fl, fl))
         names.append("F" + (fl or "{}"))
+    # one format string with several placeholders (flags of one placeholder must not affect the next):
+    # must equal the concatenation of the single-placeholder renderings
+    mf = [r.choice(flags) for _ in range(r.randint(2, 4))] + [r.choice(["", "", "#d"])]
+    multi = "|".join("{%s %s}" % (r.choice("ab"), fl) for fl in mf)
+    singles = ' $ "|" $ '.join('F"%s"' % ph for ph in multi.split("|"))
+    parts.append('[F"%s", %s]' % (multi, singles))
+    names.append("multi")
     text = "(\\a, b -> (print(a); print(b); [%s]))(%s, %s)" % (", ".join(parts), produce_as(n, stag), produce_as(n, btag))
     sign = "neg" if n < 0 else "nonneg"
 
@@ -924,7 +931,9 @@ def case_render(r, plan):
         for nm, pair in zip(names[1:], it[1:]):
             p = c_list(pair, 2)
             if p is None or c_str(p[0]) is None or c_str(p[0]) != c_str(p[1]):
-                if nm.startswith("F"):
+                if nm == "multi":
+                    key = "C16|render|multi-placeholder"
+                elif nm.startswith("F"):
                     key = "C16|render|fmt#%s|%s" % (flag_base(nm[1:]), sign)
                 else:
                     key = "C16|render|%s|%s" % (nm, sign)
